@@ -109,6 +109,8 @@ func (c c05Comp) Source() string {
 				fmt.Fprintf(&sb, "%s: %d\n", kv.K, kv.V.I)
 			case "bool":
 				fmt.Fprintf(&sb, "%s: %v\n", kv.K, kv.V.B)
+			case "nil":
+				fmt.Fprintf(&sb, "%s: ~\n", kv.K)
 			}
 		}
 		sb.WriteString("---\n")
@@ -250,7 +252,7 @@ func runC05(r *Run) {
 			var fm []KV
 			for _, k := range []string{"a", "t", "c"} {
 				if rr.Intn(4) == 0 {
-					fm = append(fm, KV{K: k, V: Pick(rr, []Val{VStr("fm-" + k), VInt("int", 5), VBool(true), VStr("")})})
+					fm = append(fm, KV{K: k, V: Pick(rr, []Val{VStr("fm-" + k), VInt("int", 5), VBool(true), VStr(""), VNil(), VNil()})}) // null: the key IS defined by the front-matter
 				}
 			}
 			return fm
